@@ -128,19 +128,33 @@ def find_pattern(text, pattern):
     if not Pt:
         raise SpecError('empty pattern')
     res = []
-    n, m = len(T), len(Pt)
-    ps = [p.s for p in Pt]
+    # `$_` in a pattern matches any single token
+    ps = []
+    k = 0
+    while k < len(Pt):
+        if Pt[k].s == '$' and k + 1 < len(Pt) and Pt[k + 1].s == '_':
+            ps.append(None)
+            k += 2
+        else:
+            ps.append(Pt[k].s)
+            k += 1
+    n, m = len(T), len(ps)
     for i in range(n - m + 1):
-        if T[i].s == ps[0] and all(T[i + k].s == ps[k] for k in range(m)):
+        if all(ps[k] is None or T[i + k].s == ps[k] for k in range(m)):
             res.append((T[i].a, T[i + m - 1].b))
     return res
 
 
-def apply_edit(text, op, pattern, repl, what):
+def apply_edit(text, op, pattern, repl, what, nth=None):
     hits = find_pattern(text, pattern)
-    if len(hits) != 1:
+    if nth is not None:
+        if len(hits) < nth:
+            raise LostAnchor('%s: pattern matched %d times (need >= %d): %r' % (what, len(hits), nth, ' '.join(pattern.split())[:80]))
+        a, b = hits[nth - 1]
+    elif len(hits) != 1:
         raise LostAnchor('%s: pattern matched %d times (need 1): %r' % (what, len(hits), ' '.join(pattern.split())[:80]))
-    a, b = hits[0]
+    else:
+        a, b = hits[0]
     if op == 'rewrite':
         return text[:a] + repl + text[b:]
     if op == 'drop':
@@ -286,7 +300,8 @@ def inject(text, fs, oblig_lines=None, what=''):
             mode, _, nm = arg.partition(' ')
             if mode not in ('before', 'after'):
                 raise SpecError('@insert needs before|after')
-            text = apply_edit(text, 'insert-' + mode, pat, rep, '%s @insert' % fs.path)
+            mm = re.search(r'nth=(\d+)', nm)
+            text = apply_edit(text, 'insert-' + mode, pat, rep, '%s @insert' % fs.path, int(mm.group(1)) if mm else None)
         elif op == 'rewrite':
             text = apply_edit(text, 'rewrite', pat, rep, '%s @rewrite %s' % (fs.path, arg))
             rewrites.append((arg, ' '.join(pat.split())[:100]))
